@@ -2,8 +2,8 @@
 package c06
 
 import (
-	"encoding/json"
 	"bytes"
+	"encoding/json"
 	"fmt"
 	"go/parser"
 	"go/token"
